@@ -81,6 +81,36 @@ Proof.
   - destruct (N.eqb v w) eqn:E; [|exact IH]. apply N.eqb_eq in E; subst. rewrite Fw in *. exact IH.
 Qed.
 
+Lemma sorted_restrict f lo m : sorted_from lo m = true -> sorted_from lo (restrict f m) = true.
+Proof.
+  revert lo. induction m as [|[w u] r IH]; intros lo S; cbn; [reflexivity|].
+  cbn in S. apply andb_true_iff in S as [A B].
+  destruct (f w); cbn.
+  - rewrite A. cbn. now apply IH.
+  - apply IH. eapply sorted_from_weaken; [|exact B].
+    intros v H. destruct lo as [l|]; [|reflexivity]. cbn in *. apply N.ltb_lt in A, H. apply N.ltb_lt. lia.
+Qed.
+
+Lemma wf_restrict f m : sol_wf m = true -> sol_wf (restrict f m) = true.
+Proof. apply sorted_restrict. Qed.
+
+Lemma dedup_in x L : In x (dedup L) <-> In x L.
+Proof.
+  induction L as [|y r IH]; cbn; [tauto|]. split.
+  - intros [->|I]; [now left|]. apply filter_In in I as [I _]. right. now apply IH.
+  - intros [->|I]; [now left|].
+    destruct (sol_eqb y x) eqn:E; [apply sol_eqb_eq in E; now left|].
+    right. apply filter_In. split; [now apply IH|]. now rewrite E.
+Qed.
+
+Lemma restrict_all f m : sol_wf m = true -> (forall v, lookup v m <> None -> f v = true) -> restrict f m = m.
+Proof.
+  intros W H. unfold restrict. induction m as [|[v t] r IH]; [reflexivity|]. cbn.
+  assert (Hv : f v = true) by (apply H; cbn; rewrite N.eqb_refl; discriminate).
+  rewrite Hv. f_equal. apply IH; [eapply wf_tail; eauto|].
+  intros w Hw. apply H. cbn. destruct (N.eqb w v) eqn:E; [discriminate|exact Hw].
+Qed.
+
 Lemma memv_in v l : memv v l = true <-> In v l.
 Proof.
   unfold memv. rewrite existsb_exists. split.
@@ -188,12 +218,13 @@ Qed.
 Fixpoint shape (p : alg) : bool :=
   match p with
   | BGP _ => true
-  | Values rows => forallb sol_wf rows
+  | Values rows => forallb sol_wf rows && forallb (fun r => forallb (fun p => nb (snd p)) r) rows
   | Union a b | Join _ a b | Minus a b | LeftJoin _ a b _ => shape a && shape b
   | Filter _ _ _ q => shape q
   | Extend _ q _ _ => shape q
   | Graph _ q => shape q
-  | _ => false
+  | Project q _ => shape q
+  | Distinct q => shape q
   end.
 
 (* the members of a LeftJoin / Extend result *)
@@ -268,11 +299,13 @@ Proof.
   - apply andb_true_iff in S as [S1 S2]. apply in_app_or in I as [I|I]; [eapply IHp1|eapply IHp2]; eauto.
   - apply andb_true_iff in S as [S1 S2]. apply filter_In in I as [I _]. eapply IHp1; eauto.
   - apply in_map_iff in I as [m0 [<- I]]. apply (ext_step_wf ds g0 v e). eapply IHp; eauto.
-  - rewrite forallb_forall in S. now apply S.
+  - apply andb_true_iff in S as [S _]. rewrite forallb_forall in S. now apply S.
+  - apply in_map_iff in I as [m0 [<- I]]. apply wf_restrict. eapply IHp; eauto.
   - destruct g as [t|v].
     + destruct (existsb _ _); [eapply IHp; eauto|destruct I].
     + apply in_flat_map in I as [ng [_ I]].
       apply in_join_lists in I as [x [y [Ix [Iy [C ->]]]]]. apply wf_merge. eapply IHp; eauto.
+  - apply (proj1 (dedup_in _ _)) in I. eapply IHp; eauto.
 Qed.
 
 Lemma cert_sound ds p : shape p = true ->
@@ -306,7 +339,9 @@ Proof.
     assert (Hd : In w (dom m)).
     { destruct I as [<-|I]; [exact Iv1|]. apply memv_in. now apply Iv2. }
     unfold dom in Hd. apply in_map_iff in Hd as [[w' u] [E Hd]]. cbn in E. subst w'.
-    rewrite forallb_forall in S. rewrite (in_lookup w u m); [discriminate|apply S, I|exact Hd].
+    apply andb_true_iff in S as [S _]. rewrite forallb_forall in S. rewrite (in_lookup w u m); [discriminate|apply S, I|exact Hd].
+  - cbn [eval_bu] in I. apply in_map_iff in I as [m0 [<- I]].
+    unfold inter in Iv. apply filter_In in Iv as [Iv1 Iv2]. rewrite lookup_restrict, Iv2. eapply IHp; eauto.
   - cbn [eval_bu] in I. destruct g as [t|v'].
     + destruct (existsb _ _); [eapply IHp; eauto|destruct I].
     + apply in_flat_map in I as [ng [_ I]].
@@ -314,6 +349,7 @@ Proof.
       rewrite lookup_merge by reflexivity. rewrite lookup_single.
       destruct (N.eqb w v') eqn:E; [discriminate|].
       destruct Iv as [->|Iv]; [now rewrite N.eqb_refl in E|]. eapply IHp; eauto.
+  - cbn [eval_bu] in I. apply (proj1 (dedup_in _ _)) in I. eapply IHp; eauto.
 Qed.
 
 Lemma lookup_dom v m t : lookup v m = Some t -> In v (dom m).
@@ -346,6 +382,9 @@ Proof.
     destruct (ext_step_dom ds g0 v e m0 w L) as [->|L0]; [now left|right; eapply IHp; eauto].
   - cbn [eval_bu] in I. apply in_flat_map. exists m. split; [exact I|].
     destruct (lookup w m) eqn:E; [|congruence]. eapply lookup_dom; eauto.
+  - cbn [eval_bu] in I. apply in_map_iff in I as [m0 [<- I]].
+    rewrite lookup_restrict in L. destruct (memv w vs) eqn:M; [|congruence].
+    unfold inter. apply filter_In. split; [eapply IHp; eauto|exact M].
   - cbn [eval_bu] in I. destruct g as [t|v'].
     + destruct (existsb _ _); [eapply IHp; eauto|destruct I].
     + apply in_flat_map in I as [ng [_ I]].
@@ -353,9 +392,132 @@ Proof.
       rewrite lookup_merge in L by reflexivity. rewrite lookup_single in L.
       destruct (N.eqb w v') eqn:E; [apply N.eqb_eq in E; subst; now left|].
       right. eapply IHp; eauto.
+  - cbn [eval_bu] in I. apply (proj1 (dedup_in _ _)) in I. eapply IHp; eauto.
 Qed.
 
 Lemma join_lists_nil_l B : join_lists [] B = []. Proof. reflexivity. Qed.
 Lemma join_lists_nil_r A : join_lists A [] = [].
 Proof. unfold join_lists. induction A; cbn; auto. Qed.
 
+(* ---- typing: boolean literals only arise from BIND ---- *)
+Definition graph_nb (g : graph) : bool :=
+  forallb (fun t : triple => let '(a, b, d) := t in nb a && nb b && nb d) g.
+Definition ds_nb (ds : dataset) : Prop :=
+  forall ng, In ng (ds_named ds) -> nb (fst ng) = true /\ graph_nb (snd ng) = true.
+Definition typed_sol (bv : list var) (m : sol) : Prop :=
+  forall v t, lookup v m = Some t -> nb t = true \/ In v bv.
+
+Lemma typed_sol_mono bv bv' m : (forall v, In v bv -> In v bv') -> typed_sol bv m -> typed_sol bv' m.
+Proof. intros H T v t L. destruct (T v t L); auto. Qed.
+
+Lemma unify_vals c x t c' :
+  unify c x t = Some c' -> forall v u, lookup v c' = Some u -> lookup v c = Some u \/ u = t.
+Proof.
+  destruct x as [k|w]; cbn.
+  - destruct (N.eqb k t); [|discriminate]. intros [= <-]. auto.
+  - destruct (lookup w c) as [z|] eqn:L.
+    + destruct (N.eqb z t); [|discriminate]. intros [= <-]. auto.
+    + intros [= <-] v u H. rewrite lookup_bind in H. destruct (N.eqb v w); [right; congruence|now left].
+Qed.
+
+Lemma unifyl_vals l : forall c c', unifyl c l = Some c' ->
+  forall v u, lookup v c' = Some u -> lookup v c = Some u \/ In u (map snd l).
+Proof.
+  induction l as [|[x t] r IH]; intros c c'; cbn.
+  - intros [= <-]. auto.
+  - destruct (unify c x t) as [c1|] eqn:U; cbn; [|discriminate]. intros H v u L.
+    destruct (IH _ _ H v u L) as [L1|I]; [|right; now right].
+    destruct (unify_vals _ _ _ _ U v u L1) as [L0|E]; [now left|right; left; now symmetry].
+Qed.
+
+Lemma bgp_ext_typed g ts : graph_nb g = true -> forall m0 m bv,
+  typed_sol bv m0 -> In m (bgp_ext g m0 ts) -> typed_sol bv m.
+Proof.
+  intros Gg. induction ts as [|tp r IH]; intros m0 m bv T I; cbn in I.
+  - destruct I as [<-|[]]. exact T.
+  - apply in_flat_map in I as [tr [Itr I]].
+    destruct (ext m0 tp tr) as [m1|] eqn:E; [|destruct I].
+    apply (IH m1 m bv); [|exact I].
+    intros v u L. rewrite ext_unifyl in E.
+    destruct (unifyl_vals _ _ _ E v u L) as [L0|Iu]; [now apply T|]. left.
+    unfold graph_nb in Gg. rewrite forallb_forall in Gg. specialize (Gg tr Itr).
+    destruct tp as [[s p] o], tr as [[a b] d]. cbn in Iu.
+    apply andb_true_iff in Gg as [Gg Gd]. apply andb_true_iff in Gg as [Ga Gb].
+    destruct Iu as [<-|[<-|[<-|[]]]]; assumption.
+Qed.
+
+Lemma named_graph_nb ds t : ds_nb ds -> graph_nb (named_graph (ds_named ds) t) = true.
+Proof.
+  intros D. unfold ds_nb in D. induction (ds_named ds) as [|[n gr] r IH]; cbn; [reflexivity|].
+  destruct (N.eqb n t).
+  - apply (D (n, gr)). now left.
+  - apply IH. intros ng I. apply D. now right.
+Qed.
+
+Lemma bu_typed ds p : shape p = true -> ds_nb ds ->
+  forall g m, graph_nb g = true -> In m (eval_bu ds g p) -> typed_sol (bool_vars p) m.
+Proof.
+  intros S D. induction p; cbn [shape] in S; intros g0 m Gg I; cbn [bool_vars].
+  - cbn [eval_bu] in I. apply (bgp_ext_typed g0 ts Gg [] m []); [intros v t L; discriminate L|exact I].
+  - cbn [eval_bu] in I. apply andb_true_iff in S as [S1 S2].
+    apply in_join_lists in I as [x [y [Ix [Iy [C ->]]]]].
+    assert (Wy := bu_wf ds p2 S2 g0 y Iy). intros v t L. rewrite lookup_merge in L by exact Wy.
+    destruct (lookup v y) eqn:Ly.
+    + injection L as <-. destruct (IHp2 S2 g0 y Gg Iy v _ Ly); [now left|right; apply in_or_app; now right].
+    + destruct (IHp1 S1 g0 x Gg Ix v t L); [now left|right; apply in_or_app; now left].
+  - apply andb_true_iff in S as [S1 S2].
+    change (In m (eval_bu ds g0 (LeftJoin None p1 p2 e))) in I.
+    apply in_leftjoin in I as [x [Ix [->|[y [Iy [C ->]]]]]].
+    + eapply typed_sol_mono; [|apply (IHp1 S1 g0 x Gg Ix)]. intros; apply in_or_app; now left.
+    + assert (Wy := bu_wf ds p2 S2 g0 y Iy). intros v t L. rewrite lookup_merge in L by exact Wy.
+      destruct (lookup v y) eqn:Ly.
+      * injection L as <-. destruct (IHp2 S2 g0 y Gg Iy v _ Ly); [now left|right; apply in_or_app; right; apply in_or_app; now left].
+      * destruct (IHp1 S1 g0 x Gg Ix v t L); [now left|right; apply in_or_app; now left].
+  - cbn [eval_bu] in I. apply filter_In in I as [I _].
+    eapply typed_sol_mono; [|apply (IHp S g0 m Gg I)]. intros; apply in_or_app; now right.
+  - cbn [eval_bu] in I. apply andb_true_iff in S as [S1 S2]. apply in_app_or in I as [I|I].
+    + eapply typed_sol_mono; [|apply (IHp1 S1 g0 m Gg I)]. intros; apply in_or_app; now left.
+    + eapply typed_sol_mono; [|apply (IHp2 S2 g0 m Gg I)]. intros; apply in_or_app; now right.
+  - cbn [eval_bu] in I. apply andb_true_iff in S as [S1 S2]. apply filter_In in I as [I _].
+    eapply typed_sol_mono; [|apply (IHp1 S1 g0 m Gg I)]. intros; apply in_or_app; now left.
+  - (* Extend *)
+    cbn [eval_bu] in I. apply in_map_iff in I as [m0 [<- I]].
+    pose proof (IHp S g0 m0 Gg I) as T0.
+    change (typed_sol ((if boolean_valued e || copies_bool e (bool_vars p) then [v] else []) ++ bool_vars_e e ++ bool_vars p)
+                      (ext_step ds g0 v e m0)).
+    intros w t L. unfold ext_step in L.
+    assert (Old : lookup w m0 = Some t -> nb t = true \/
+                  In w ((if boolean_valued e || copies_bool e (bool_vars p) then [v] else []) ++ bool_vars_e e ++ bool_vars p)).
+    { intros L0. destruct (T0 w t L0); [now left|right; apply in_or_app; right; apply in_or_app; now right]. }
+    destruct (expr_bu ds g0 m0 e) as [t0|] eqn:Ev; [|now apply Old].
+    destruct (lookup v m0) eqn:Lv; [now apply Old|].
+    rewrite lookup_bind in L. destruct (N.eqb w v) eqn:E; [|now apply Old].
+    apply N.eqb_eq in E; subst w. injection L as <-.
+    destruct (boolean_valued e) eqn:Bv; [right; cbn; now left|].
+    destruct e; try discriminate Bv; cbn in Ev; cbn [copies_bool orb].
+    + destruct (T0 v0 t0 Ev) as [Hn|Hb]; [now left|].
+      right. rewrite (proj2 (memv_in v0 _) Hb). cbn. now left.
+    + injection Ev as <-. destruct (nb t) eqn:Nt; [now left|right; cbn; now left].
+  - cbn [eval_bu] in I. apply andb_true_iff in S as [_ S]. rewrite forallb_forall in S.
+    specialize (S m I). rewrite forallb_forall in S.
+    intros v t L. left. apply (S (v, t)). now apply lookup_in.
+  - cbn [eval_bu] in I. apply in_map_iff in I as [m0 [<- I]].
+    intros v t L. rewrite lookup_restrict in L. destruct (memv v vs); [|discriminate]. now apply (IHp S g0 m0 Gg I).
+  - cbn [eval_bu] in I. destruct g as [t|w].
+    + destruct (existsb _ _); [|destruct I]. apply (IHp S _ m (named_graph_nb ds t D) I).
+    + apply in_flat_map in I as [ng [Ing I]].
+      apply in_join_lists in I as [x [y [Ix [[<-|[]] [C ->]]]]].
+      intros v t L. rewrite lookup_merge in L by reflexivity. rewrite lookup_single in L.
+      destruct (N.eqb v w) eqn:E.
+      * injection L as <-. left. apply (D ng Ing).
+      * apply (IHp S (snd ng) x (proj2 (D ng Ing)) Ix v t L).
+  - cbn [eval_bu] in I. apply (proj1 (dedup_in _ _)) in I. now apply (IHp S g0 m Gg I).
+Qed.
+
+(* rdflib's comparison operators are the specification's on terms that are not
+   boolean literals (IRIs and integers: no two literals of different kinds) *)
+Lemma cmp_nb op t1 t2 : nb t1 = true -> nb t2 = true -> cmp_impl op t1 t2 = cmp_spec op t1 t2.
+Proof.
+  unfold nb, cmp_impl, cmp_spec, is_lit, same_kind.
+  destruct (kind_of t1), (kind_of t2); try discriminate; intros _ _; destruct op; reflexivity.
+Qed.
